@@ -208,8 +208,12 @@ def strata(ctx, rnd):
         p = rnd.choice([1, 2, 3])
         save = rnd.random() < 0.8
         restore = rnd.random() < 0.7
-        if not ctx.quick and rnd.random() < 0.9 and restore and not save:
-            save = True
+        if not ctx.quick and restore and not save:           # keep the rejected combination rare
+            u = rnd.random()
+            if u < 0.45:
+                save = True
+            elif u < 0.9:
+                restore = False
         add(names, shapes, mi, p, rnd.random() < 0.5, rnd.random() < 0.7, restore, save,
             rnd.choice(["plateau", "rebound", "descend", "zigzag"]),
             rnd.choice([F(0), F(1, 4), F(1)]), rnd.choice([F(0), F(0), F(1, 8)]))
